@@ -15,6 +15,7 @@
 package dtls
 
 import (
+	"errors"
 	"bufio"
 	"bytes"
 	"encoding/json"
@@ -103,6 +104,11 @@ func (r *c18Res) bad(f string, a ...any) {
 	}
 }
 
+// c18ReencodeError: the decoder accepted, the encoder refuses the decoded value.
+type c18ReencodeError struct{ err error }
+
+func (e *c18ReencodeError) Error() string { return "re-encode: " + e.err.Error() }
+
 // c18Codec adapts one library codec: decode returns a normalised value (JSON-comparable with the
 // specification's h) and the re-encoding of the decoded value.
 type c18Codec struct {
@@ -151,6 +157,12 @@ func c18Offer(r *c18Res, c c18Codec, b []byte, d *c18Dec, canonical bool) {
 	r.evals++
 	val, reenc, err := c.decode(b)
 	what := fmt.Sprintf("%s(%s)", c.name, c10hex(b))
+	var reErr *c18ReencodeError
+	if errors.As(err, &reErr) {
+		r.bad("FIXPOINT %s: the decoder accepts the input but the value it returns cannot be re-encoded: %v", what, reErr.err)
+
+		return
+	}
 	switch {
 	case !d.OK:
 		if err == nil {
@@ -267,6 +279,24 @@ func c18Codecs(n int) map[string]c18Codec { //nolint:cyclop
 				"epoch": int(h.Epoch), "seq": limbs(h.SequenceNumber, 3), "cid": ints(h.ConnectionID), "len": int(h.ContentLen)},
 				"body": ints(body)}, re, err
 		}},
+		"hs12": {"handshake.Handshake", func(b []byte) (any, []byte, error) {
+			var h handshake.Handshake
+			if err := h.Unmarshal(b); err != nil {
+				return nil, nil, err
+			}
+			hd := h.Header
+			body, err := h.Message.Marshal()
+			if err != nil {
+				return nil, nil, &c18ReencodeError{err}
+			}
+			re, err := h.Marshal()
+			if err != nil {
+				return nil, nil, &c18ReencodeError{err}
+			}
+
+			return map[string]any{"hdr": map[string]any{"type": int(hd.Type), "length": int(hd.Length), "mseq": int(hd.MessageSequence),
+				"foff": int(hd.FragmentOffset), "flen": int(hd.FragmentLength)}, "body": ints(body)}, re, nil
+		}},
 		"inner": {"recordlayer.InnerPlaintext", func(b []byte) (any, []byte, error) {
 			var p recordlayer.InnerPlaintext
 			if err := p.Unmarshal(b); err != nil {
@@ -329,7 +359,7 @@ func c18Unpack(r *c18Res, name string, b []byte, d *c18Dec, canonical bool, f fu
 
 func c18DoStage1(v *c18Vec, r *c18Res) { //nolint:cyclop
 	switch v.K {
-	case "hdr12", "uhdr", "hshdr", "alert", "ack", "rrc", "inner", "plain12":
+	case "hdr12", "uhdr", "hshdr", "alert", "ack", "rrc", "inner", "plain12", "hs12":
 		c := c18Codecs(v.N)[v.K]
 		c18Offer(r, c, v.Enc, &c18Dec{OK: true, Used: len(v.Enc), H: v.Val}, true)
 		for i := range v.Variants {
